@@ -343,6 +343,24 @@ def main():
                             bad = max(float(np.max(np.abs(np.asarray(a.sol(t)) - y))) for t, y in zip(a.t, a.y))
                             if bad > 1e-6:
                                 fail("dense-output-does-not-reproduce-the-recorded-states-after-terminal-stop", err=bad, **info)
+    # (d0) a *shallow* event (slope 1e-6) crossing 1e-10 before a step boundary: one crossing, one record.  Known finding F35: the next step
+    # starts inside the band |g| <= eps, the absolute acceptance test of the root finder certifies its first point, the direction samples
+    # reach back over the crossing, and the two times differ by more than the duplicate width eps**0.7
+    if "C07" in props:
+        def rhs0(t, y, **kw):
+            return np.array([1.0])
+
+        def shallow(t, y, **kw):
+            return 1e-6 * (y[0] - (1.0 - 1e-10))
+        a = de.OdeSystem(rhs0, y0=np.array([0.0]), t=(0.0, 2.0), dt=0.125, rtol=1e-3, atol=1e-3)
+        a.method = "RK4"
+        cases[0] += 1
+        try:
+            a.integrate(events=[shallow])
+            if len(a.events) != 1:
+                fail("shallow-crossing-just-before-a-step-boundary-reported-twice", times=[float(e.t) for e in a.events])
+        except Exception as e:
+            fail("integration-with-events-raised", error=repr(e)[:200], family="shallow-boundary")
     # (d) crossings exactly on step boundaries, fixed step (y' = 1): two events sharing a step, one root on the boundary
     def rhs1(t, y, **kw):
         return np.array([1.0])
